@@ -57,7 +57,7 @@ class Circle(Shape2D):
 
     @centroid.setter
     def centroid(self, value):
-        self._centroid = np.asarray(value)
+        self._centroid = np.array(value)
 
     @property
     def radius(self):
